@@ -302,3 +302,42 @@ PROPS['C04'] = dict(  # packet half only (mode c04pkt); the receive-path mode is
         explanation='field value x buffer length products are enumerated completely up to length 160 (quick) / 1024 (thorough); buffer contents are sampled',
         timeout={'quick': 300, 'thorough': 1500})
 
+
+
+# ---- C16 ----
+def compare_c16(inp, impl_out, model_out):
+    """c16: identical canonical text (effective configuration or error site); c16grid: accept / reject only"""
+    if inp.startswith('c16grid'):
+        return impl_out.split(' ')[0].split(':')[0] == model_out
+    return impl_out == model_out
+
+
+def c16_nontrivial(inp, outp):
+    t = toks(inp)
+    if t[0] == 'c16grid':
+        return outp.startswith('accept')
+    # an accepted configuration in which at least one layer says something
+    return outp.startswith('ok') and (t[4] not in ('-', 'D') or t[5] != '-')
+
+
+PROPS['C16'] = dict(
+    crates=['htui', 'hcore'], modes=[('htui', 'c16'), ('hcore', 'c16grid')],
+    nontrivial=c16_nontrivial, compare=compare_c16, oracle_tag='C16',
+    rule='c16: two abstract option maps (file, command line) rendered to real argv strings and TOML text and run through the real clap / toml parsers and '
+         'TrippyConfig::build_config: every one of 121 subjects (44 options, 5 shortcut flags, 34 theme items, 38 key bindings) x the four states '
+         'absent / file / CLI / both x 20 (quick) or 300 (thorough) random settings of all other options (densities 0..25%, boundary and rejected values, '
+         'deprecated keys, empty sections, ConfigFile::default(), all privilege combinations, pids around 1024); observable = the effective TrippyConfig '
+         '(every field, canonical text) or the rejecting validator, and the verdict of the real Builder::build() on the accepted configuration; '
+         'oracle = the precedence rule evaluated directly on the two maps with the documented defaults. '
+         'c16grid: protocol x strategy x port direction x privilege x family x first_ttl {0,1,2,254,255} x max_ttl {0,1,2,64,254,255} x initial_sequence '
+         '{0,33434,64511,64512,65535} = 21600 cells, enumerated completely through the real Builder::build(); every accepted cell runs 3 rounds of the real '
+         'strategy + state handler over the simulated network under catch_unwind; oracle: accepted => no panic and 3 rounds. '
+         'non-trivial = accepted configuration with at least one entry / accepted cell; distinct = distinct input line',
+    exhaustive={'quick': False, 'thorough': False},
+    explanation='the builder grid (21600 cells) and the per-subject four states are enumerated completely in both tiers; the settings of the other options are sampled',
+    timeout={'quick': 600, 'thorough': 3000},
+    trusted_extra=['Rust harness harness/htui (renders option maps to argv / TOML, canonical text of TrippyConfig, replica of the Builder call of app.rs start_tracer)',
+                   'chrono_tz name table: whether a timezone name parses is recorded by the harness and given to the model as an input'],
+    assumptions=['clap and toml parsing, humantime, chrono_tz are glue: exercised on every case, not modelled',
+                 'the theorems about running cover the strategy loop (model A); the aggregator (State::update_from_round) is covered for the accepted grid cells by execution only'],
+)
